@@ -17,7 +17,8 @@ reg(
           "alphabet (joined with and without spaces), every sequence of whole elements up to the stated length, block "
           "nesting sweep to depth 32 (closed / unclosed at every level / mis-nested), random token soups, character- and "
           "token-level mutations of generated well-formed templates, and well-formed templates with one definite fault "
-          "injected. distinct = distinct (config, text) by content hash; non-trivial = the text contains at least one "
+          "injected (31 fault shapes: unknown tag/filter incl. in identifier positions, excess/missing/unknown-named filter arguments, unclosed blocks, stray end/else/when tags, unterminated strings and delimiters, ...). "
+          "The alphabets include case variants of the literal keywords, keyword-prefixed identifiers and multi-line quote fragments; element sequences whose first element opens a block that no later element closes must be rejected. distinct = distinct (config, text) by content hash; non-trivial = the text contains at least one "
           "Liquid delimiter ({{ or {%), i.e. the strict tag/expression parser is actually entered."),
     exhaustive=False,
     profiles={"quick": ["checked"], "thorough": ["checked"]},
@@ -43,7 +44,8 @@ reg(
     design_ref="DESIGN.md §5 C02",
     rule=("cases = (configuration, template, data). Families: every registered filter (stdlib, jekyll, shopify, extra) at arity 0, 1, 2 "
           "with input and arguments drawn exhaustively from the hostile value pool; ~65 tag/block/path edge templates over x, y, z with "
-          "the data sweeping the pool for every variable used; random whole programs with partials on type-confused data. "
+          "the data sweeping the pool for every variable used; an array-stress family (random arrays of 15..60 nested / mixed / object elements through every sort-like filter); random whole programs with partials on type-confused data. "
+          "The pool holds boundary integers, NaN/inf, long non-ASCII texts, property-path strings, dates at the range end, arrays of objects. "
           "distinct = distinct (template, data) by content hash; non-trivial = the template parsed and the render was actually executed "
           "(templates rejected at parse are counted separately and are not evaluations)."),
     profiles={"quick": ["checked"], "thorough": ["checked", "release"]},
@@ -67,7 +69,7 @@ reg(
     technique="runtime monitoring: history monitor — every render in every call history on a shared parser is compared with its stand-alone result on a freshly built parser; caller-data immutability monitor",
     design_ref="DESIGN.md §5 C09",
     rule=("a case = (pool of 2-3 templates x 2-3 data objects over one partial set, compilation policy eager|lazy, history r1..rk). "
-          "All histories of length <= 3 over the pool's (template, data) pairs are enumerated, lengths 4-6 are sampled. Every call's result "
+          "Every pool also holds a designed template that fails midway at a point chosen by the data (inside a capture / an ifchanged body after text was written, inside a loop after stateful tags ran, while a break is pending in a tablerow, inside an included partial) and includes/renders a partial whose name comes from the data. All histories of length <= 3 over the pool's (template, data) pairs are enumerated, lengths 4-6 are sampled. Every call's result "
           "(output, or 'error') must equal the result of the same (template, data) on a fresh parser. distinct = distinct (pool, policy, history); "
           "non-trivial = history length >= 2 (a single call cannot observe leaked state)."),
     profiles={"quick": ["checked"], "thorough": ["checked"]},
@@ -107,7 +109,7 @@ reg(
     level="exploration",
     technique="runtime monitoring: differential monitor across the three compilation policies, with an instrumented PartialSource recording which partial names an execution actually requested",
     design_ref="DESIGN.md §5 C19",
-    rule=("a case = (main template, 0-4 partials some broken, a possibly missing name, data, 1-3 renders per parser). Oracle: build() is Ok under "
+    rule=("a case = (main template, 0-4 partials some broken, some stored under '<name>.liquid' (alone or next to the bare name), some with an empty source, a possibly missing name, data, 1-3 renders per parser). Oracle: build() is Ok under "
           "all three policies; results agree (same output or all fail); repeated renders equal the first; if the instrumented source saw no lookup "
           "of a broken/missing name, every policy must equal the scenario with the broken partials made healthy. distinct = distinct scenario by "
           "content hash; non-trivial = the main template contains an include or render tag."),
@@ -125,7 +127,7 @@ reg(
     level="exploration",
     technique="runtime monitoring under stress: barrier-released threads on shared Arc<Parser>/Arc<Template>, per-call differential oracle against stand-alone results, instrumented PartialSource (delay injection inside the lazy store's critical section) and PartialStore (enter/leave event log); ThreadSanitizer and Miri in the thorough tier",
     design_ref="DESIGN.md §5 C20",
-    rule=("a case = one concurrent round: pool (3 templates, 2 data objects, 3 partials incl. broken + a missing name), 2-16 threads released by a "
+    rule=("a case = one concurrent round: pool (3 templates incl. one full of ifchanged/capture bodies, 2 data objects, partials incl. a broken one, a missing name and two selected by a data-dependent name), 2-16 threads released by a "
           "barrier, 10-50 seeded calls each (render, render_to, parse+render) on shared objects, lazy or eager policy, delay mode in "
           "{none, yield, sleep 50us, sleep 500us} injected inside PartialSource::try_get, optional start skew. Every call's result must equal "
           "its stand-alone sequential result; afterwards the parser must still work sequentially. distinct = distinct round by content hash; "
@@ -220,7 +222,7 @@ reg(
     technique="runtime monitoring: reference functions and multiset/sortedness/stability monitors over filter results read structurally through the dump plugin; bounded-exhaustive small arrays plus random arrays beyond the 20-element sort threshold in every initial order",
     design_ref="DESIGN.md §5 C14",
     rule=("a case = (input array, filter battery). Exhaustive: all arrays of length 0..L (quick 4, thorough 5) over {nil, 1, 1.0, 2, 1.5, 'a', 'B', 'b'} and over case-variant "
-          "strings; all arrays of length 0..3 (thorough 4) over 8 one-/two-key objects with a present, missing, nil or false property, for property names present/absent; "
+          "strings; all arrays of length 0..3 (thorough 4) over 8 one-/two-key objects with a present, missing, nil or false property, for property names present/absent, where-targets 1, 'a', 2, false, nil, true; non-array inputs to sort/sort_natural; "
           "slice with every offset in [-n-2, n+1] x lengths; random arrays of length 0..60 (half of them longer than 20) of five kinds (ints, numbers, strings, ints with nils, "
           "mixed incomparable types) in random, sorted, reversed and organ-pipe order. distinct = distinct input array (and slice arguments); non-trivial = the array has at least 2 elements."),
     profiles={"quick": ["checked"], "thorough": ["checked"]},
@@ -240,11 +242,11 @@ reg(
     technique="runtime monitoring: agreement monitor over every view of a generated datum (Value, &Value, as_view, to_value, ValueCow owned/borrowed, Option, Vec, HashMap/BTreeMap), serde and JSON round trips, derive(ObjectView, ValueView) structs compared with their serde conversion through the object API and a template battery, out-of-range integer probes",
     design_ref="DESIGN.md §5 C12",
     rule=("cases: (a) data from a recursive generator (depth <= 4, every scalar kind incl. dates, numeric-looking strings, arrays, single- and multi-key objects with keys like 'size'/'first'): "
-          "all views must agree on type_name, the four query_state answers, kind predicates, strict dump of to_value(), and (when no multi-key object is involved) render/source/to_kstr; "
+          "all views (Value, &Value, as_view, to_value, ValueCow owned/borrowed, Some(v), Some(Some(v)), None/Some(None) for nil, Vec, HashMap, BTreeMap) must agree on type_name, the four query_state answers, kind predicates, strict dump of to_value(), and (when no multi-key object is involved) render/source/to_kstr; "
           "to_value, from_value::<Value> and the JSON text round trip must preserve the strict dump (dates, date-shaped strings and the empty/blank markers are excluded from the serde clauses); "
           "(b) every instance of a family of derived structs (2160 field combinations: i64, f64, bool, String, Option, Vec, BTreeMap, nested struct, optional nested struct; a single-field struct; an empty struct) "
           "compared with its serde conversion on get/contains_key/size/keys/iter/values and on 12 templates; enums and tuples round-tripped on the serde side; (c) integers across the i64/u64/i128 boundaries "
-          "through Rust integer types and JSON. distinct = distinct datum / struct instance by content; non-trivial = the datum is not nil."),
+          "through Rust integer types and JSON, and u64 round trips Rust -> liquid -> Rust (bare and as a struct field). distinct = distinct datum / struct instance by content; non-trivial = the datum is not nil."),
     profiles={"quick": ["checked"], "thorough": ["checked"]},
     floor={"quick": 15000, "thorough": 200000},
     assumptions=["dates are encoded as strings by serde by design, so date-shaped strings are excluded from the kind clause", "the empty/blank query markers are not data and are excluded from the serde clauses"],
@@ -282,7 +284,7 @@ reg(
     rule=("a case = (filter or chain, input x, arguments). Inputs: every string of length <= 4 (quick: <= 3 exhaustively + seeded samples of length 4) over {a, B, space, LF, TAB, ',', '<', e-acute, U+0301, thumbs-up}; "
           "string arguments of length <= 2; two-argument replace/replace_first on x <= 3; every integer in [-6, 8] for truncate/truncatewords (alone and with an ellipsis) and every offset x length pair for slice; "
           "array inputs for join/first/last/size; default on nil/false/empty values; random strings <= 200 characters (ASCII, Latin-1, combining marks, emoji, ZWJ sequences, flags, CRLF, Unicode spaces, CJK) through every filter; "
-          "chains of 1..4 filters. Each cell is compared with a reference written from the filter's documentation, or with laws only where the documentation is silent (split|join identity, strip = lstrip.rstrip, truncate length, "
+          "chains of 1..4 filters; chains whose entry is a literal and whose arguments are variables, parsed once and evaluated with 64 argument pairs. Each cell is compared with a reference written from the filter's documentation, or with laws only where the documentation is silent (split|join identity, strip = lstrip.rstrip, truncate length, "
           "slice contiguity, chain = composition of separately rendered steps). distinct = distinct (template, data) by content; non-trivial = the input x is non-empty."),
     profiles={"quick": ["checked"], "thorough": ["checked", "release"]},
     floor={"quick": 1000000, "thorough": 30000000},
@@ -375,7 +377,7 @@ reg(
     design_ref="DESIGN.md §5 C06",
     rule=("cases: (1) every operator (==, !=, <>, <, >, <=, >=, contains) x every ordered pair of a 32-value pool (nil, booleans, ints, floats equal to ints, numeric and other strings, blank strings, arrays, objects, empty/blank markers), each side as literal and through a variable; bare truthiness of every value under if and unless; "
           "(2) if/elsif chains of 1..4 arms over all assignments of {true, false, undefined}, with and without else; unless; and/or chains of length <= 4 of the shape or* and*, all truth assignments; "
-          "(3) case/when with 1..4 arms, value lists with duplicates and overlaps, ',' and 'or' separators, target as literal and variable; (4) random nestings of if/unless/case with comparisons, contains, empty/blank tests and undefined names. "
+          "(3) case/when with 1..4 arms, value lists with duplicates and overlaps, ',' and 'or' separators, target as literal and variable; (4) random nestings of if/unless/case with comparisons, contains, empty/blank tests and undefined names; (5) bare member tests where a loop variable shadows an outer object that has the member, and bare tests of undefined names equal to the special names size/first/last/forloop. "
           "distinct = distinct (template, data); non-trivial = operands differ or are not plain scalars / at least two arms or atoms."),
     exhaustive=True,
     profiles={"quick": ["checked"], "thorough": ["checked"]},
@@ -395,7 +397,7 @@ reg(
     design_ref="DESIGN.md §5 C07",
     rule=("cases: (paths) two hand-built and 30 (thorough 400) generated nested data roots (arrays of length 0..5 inside objects inside arrays, own keys named size/first/last, integer-like, non-ASCII and spaced keys, non-ASCII strings); "
           "from every reachable value every candidate step is tried (array: every integer in [-len-2, len+1], first, last, size, an absent name; object: own keys, size, absent and integer-like keys; strings: size, absent, 0), to depth 4, "
-          "each path written with literal indices (dot and bracket forms), with indices supplied by variables, and by nested paths r[ix.p0]...; expected = the reference step function; a missing step must make the output tag fail. "
+          "each path written with literal indices (dot and bracket forms), with indices supplied by variables, by nested paths r[ix.p0]..., and with the root re-assigned in the template over a decoy caller datum that has more members everywhere; expected = the reference step function; a missing step must make the output tag fail. "
           "(literals) i64 boundaries and a sweep of 2*10^3 (thorough 2*10^4) integers with +, - and leading zeros, decimals with 1..6 fraction digits, strings in both quote styles over a hostile alphabet, true/false/nil/null, out-of-range integers. "
           "distinct = distinct (template, data); non-trivial = the path has at least one step / every literal."),
     profiles={"quick": ["checked"], "thorough": ["checked"]},
@@ -430,7 +432,7 @@ reg(
     level="exploration",
     technique="runtime monitoring against a reference interpreter: generated caller + 1..3 partials (nested, no recursion) using every include/render argument form, stateful constructs and interrupts, with state probes before/after every tag and inside the partials; missing and broken partials on executed and dead paths",
     design_ref="DESIGN.md §5 C08",
-    rule=("cases: seven fixed scenarios (one per clause of the statement) plus generated scenarios: caller and 1..3 partials over names {a,b,c} built from assign, capture, increment/decrement, cycle, ifchanged, for with break/continue, if, "
+    rule=("cases: eleven fixed scenarios (one per clause of the statement, plus one include/render tag whose partial name changes from pass to pass) plus generated scenarios: caller and 1..3 partials over names {a,b,c} built from assign, capture, increment/decrement, cycle, ifchanged, for with break/continue, if, "
           "include (with/without arguments) and render (plain arguments, with..as, for..as), partial names literal and through variables, break/continue at the top level of partials, a missing name and a syntactically broken partial on executed and on dead paths. "
           "The output trace (probes print every name's try_get/get/roots/counter at every point) must equal the reference interpreter's, and errors must occur exactly where the reference says. distinct = distinct scenario; "
           "non-trivial = the scenario is inside the specified behaviour (unspecified ones are counted separately and not compared)."),
